@@ -191,6 +191,9 @@ def sentences(a: S.AbsConn, ev, eff, post_tokens):
             yield (f"C11-prelogon-send:{a.state}:{mt}", "send before Logon not refused cleanly (effects / state / counters / journal)")
     if ev[0] != "recv" or not reachable(a) or a.state <= 3:
         return
+    if post.state == 8 and consistent(a):
+        yield ("C11-half-logged-on", "connection left in LOGON_INITIAL_RECV: Logon received but never answered, "
+               "yet messages are delivered / sent from there")
     m = ev[2]
     mt = m[0]
     d = defect_class(a, m)
@@ -259,7 +262,7 @@ def oracle(ctx, disagreements, broken):
         ctx.oracle_stats = {"evaluations": n, "failures": len(failures), "histories": nh,
                             "sentences": ["disconnect-count", "loud-after-disconnect", "loud-while-disconnected", "revived",
                                           "prelogon-send", "prelogon-delivery", "defect-delivered", "defect-advanced-counter",
-                                          "defect-not-disconnected", "defect-logout"]}
+                                          "defect-not-disconnected", "defect-logout", "half-logged-on"]}
     finally:
         impl.close()
     # smallest first: single steps before histories (already in that order); cap the list
